@@ -14,7 +14,7 @@ import (
 func init() {
 	register(&Prop{
 		ID:          "C06",
-		Decided:     "(1) operator tables: every case of expr.compareFloats/compareStrings denotes its relation under all orderings (NaN unordered); every operator the property names (+ - * /, the six comparisons with aliases, AND/OR/NOT, LIKE, IS) is accepted by the tokenizer's tables and has a case in each evaluator switch of its kind; (2) NULL discipline: in evaluateOperatorValue no arithmetic is reachable once an operand is NULL and the result is then NULL; in compareValues a NULL operand yields false for every non-IS operator before any numeric/string comparison; (3) built-in functions cannot take the caller down: every call of Function.Execute outside its own package is dominated by a successful Validate of the same function and arguments, or runs inside a frame that converts panics to errors, or is the one reviewed exception; in every Execute body a constant index args[k] is below the lower bound of len(args) implied by the constructor's minArgs (when Validate checks the count) and by dominating len(args) tests; argument-derived type assertions are comma-ok; (4) history independence, structural part: the mutated fields of the process-wide ExprBridge and FunctionRegistry are exactly the reviewed caches (a new process-wide cache fails); (5) both evaluators and the stream resolve functions only through the registry (the registry map is touched only by registry methods). Also: a process-wide cache stores the result of a fallible computation only after its error was found nil; the direct function-call path cuts an argument list only out of text that is one whole call. Also: in package functions a failing run of a program obtained from the bridge's process-wide compile cache (compiled against another row's value types) is always followed by the evaluation against the row itself (expr.Eval) before an error is returned (flow/cached-program-failure-falls-back). Also: the key of every Load/Store on a text-keyed sync.Map memo in package functions is the function's own text parameter, unmodified (or a concatenation containing it): two different expressions never share an entry of a process-wide cache (flow/memo-key-is-the-input).",
+		Decided:     "(1) operator tables: every case of expr.compareFloats/compareStrings denotes its relation under all orderings (NaN unordered); every operator the property names (+ - * /, the six comparisons with aliases, AND/OR/NOT, LIKE, IS) is accepted by the tokenizer's tables and has a case in each evaluator switch of its kind; (2) NULL discipline: in evaluateOperatorValue no arithmetic is reachable once an operand is NULL and the result is then NULL; in compareValues a NULL operand yields false for every non-IS operator before any numeric/string comparison; (3) built-in functions cannot take the caller down: every call of Function.Execute outside its own package is dominated by a successful Validate of the same function and arguments, or runs inside a frame that converts panics to errors, or is the one reviewed exception; in every Execute body a constant index args[k] is below the lower bound of len(args) implied by the constructor's minArgs (when Validate checks the count) and by dominating len(args) tests; argument-derived type assertions are comma-ok; (4) history independence, structural part: the mutated fields of the process-wide ExprBridge and FunctionRegistry are exactly the reviewed caches (a new process-wide cache fails); (5) both evaluators and the stream resolve functions only through the registry (the registry map is touched only by registry methods). Also: a process-wide cache stores the result of a fallible computation only after its error was found nil; the direct function-call path cuts an argument list only out of text that is one whole call. Also: in package functions a failing run of a program obtained from the bridge's process-wide compile cache (compiled against another row's value types) is always followed by the evaluation against the row itself (expr.Eval) before an error is returned (flow/cached-program-failure-falls-back). Also: the key of every Load/Store on a text-keyed sync.Map memo in package functions is the function's own text parameter, unmodified (or a concatenation containing it): two different expressions never share an entry of a process-wide cache (flow/memo-key-is-the-input). Also: no struct type and no package-level variable of the module holds an expr-lang vm.VM (ownmap/no-retained-vm): the run-time state of one evaluation is never kept in an object shared by concurrent evaluations or by all instances of the process.",
 		NotDecided:  "arithmetic, precedence, CASE branch selection, every function's documented value, agreement of the three evaluators on values, independence from the process-wide program cache (expr-lang internals), dynamic indices and slices inside Execute bodies.",
 		Assumptions: []string{"expr-lang's vm.Run converts a panic of a called function into an error (read in the module cache, vm.go: defer/recover in Run)"},
 		Run:         runC06,
@@ -212,6 +212,7 @@ func runC06(a *A) {
 	a.Rule("ownmap/shared-state", 5, func() { a.ruleSharedState() })
 	a.Rule("flow/pooled-map-cleared", 1, func() { a.rulePooledMapsModule() })
 	a.Rule("flow/cache-stores-success-only", 4, func() { a.ruleCacheStoresSuccessOnly() })
+	a.Rule("ownmap/no-retained-vm", 1, func() { a.ruleNoRetainedVM() })
 	a.Rule("flow/memo-key-is-the-input", 4, func() { a.ruleMemoKeyIsTheInput() })
 	a.Rule("flow/cached-program-failure-falls-back", 1, func() { a.ruleCachedProgramFailureFallsBack() })
 	a.Rule("tables/null-safe-predicates", 2, func() { a.ruleNullSafePredicates() })
@@ -767,13 +768,21 @@ func (a *A) ruleCachedProgramFailureFallsBack() int {
 			continue
 		}
 		allInstrs(fn, func(in ssa.Instruction) {
-			if !isExprCall(in, "Run") {
+			c, isCall := in.(*ssa.Call)
+			if !isCall {
 				return
 			}
-			c := in.(*ssa.Call)
+			var progArg ssa.Value
+			if isExprCall(in, "Run") {
+				progArg = c.Call.Args[0]
+			} else if sc := c.Call.StaticCallee(); sc != nil && sc.Name() == "Run" && sc.Pkg != nil && sc.Pkg.Pkg.Path() == "github.com/expr-lang/expr/vm" && len(c.Call.Args) >= 2 {
+				progArg = c.Call.Args[1] // (*vm.VM).Run(program, env)
+			} else {
+				return
+			}
 			// the program comes from the compile-and-cache entry point
 			cached := false
-			for x := range sliceThroughLocals(c.Call.Args[0], fn, 8) {
+			for x := range sliceThroughLocals(progArg, fn, 8) {
 				if cc, ok := x.(*ssa.Call); ok && cc.Call.StaticCallee() == compile {
 					cached = true
 				}
